@@ -160,14 +160,16 @@ class Report:
     def finish(self, replayer=None):
         findings = load_findings()
         known_lines, viol_lines = [], []
+        known_hits = {}
         rdir = os.path.join(os.environ.get('VERIF_REPLAY_DIR', os.path.join(VERIF, 'replay')), self.prop)
         for (target, clause), cases in sorted(self.viol.items()):
             count = self.clauses.get((target, clause), len(cases))
             idx, desc, config = cases[0]
             f = match_finding(findings, self.prop, target, clause, desc)
             if f is not None:
-                known_lines.append('KNOWN-FINDING: property=%s %s [%s / %s; %d case(s) this run, e.g. %s]' % (
-                    self.prop, f.get('what', ''), target, clause, count, desc[:160]))
+                known_hits.setdefault(id(f), [f, 0, []])
+                known_hits[id(f)][1] += count
+                known_hits[id(f)][2].append('%s / %s' % (target, clause))
                 continue
             # replay before report
             confirmed = True
@@ -189,6 +191,9 @@ class Report:
                            'other_cases': [c[1] for c in cases[1:]]}, fh, indent=1)
             viol_lines.append('VIOLATION property=%s replay=%s' % (self.prop, rpath))
             sys.stderr.write('  violation: %s / %s : %s\n' % (target, clause, desc[:300]))
+        for f, cnt, where in known_hits.values():   # one line per listed finding
+            known_lines.append('KNOWN-FINDING: property=%s %s [seen %d time(s) this run in: %s]' % (
+                self.prop, f.get('what', ''), cnt, '; '.join(where[:12]) + (' ...' if len(where) > 12 else '')))
         self.write_evidence(len(viol_lines), len(known_lines))
         for l in known_lines:
             print(l)
